@@ -1089,6 +1089,17 @@ func (vc *VC) unop(fr *Frame, in *ssa.UnOp, pos token.Pos) *Val {
 		// give the loaded value a name to keep terms small, and constrain it
 		nv := &Val{T: vc.define("ld_"+in.Name(), vc.sortOf(in.Type()), v.T), Ty: in.Type(), PRoot: x.PRoot, PFields: x.PFields}
 		vc.assume(vc.rangeFact(nv.T, nv.Ty))
+		if g, ok := in.X.(*ssa.Global); ok && g.Pkg != nil && vc.p.db.NonNilGlobalPkgs[g.Pkg.Pkg.Path()] {
+			switch vc.sortOf(in.Type()) {
+			case "Iface":
+				vc.assume(fmt.Sprintf("(not (= (i_tag %s) 0))", nv.T))
+			case "Int":
+				if _, isPtr := in.Type().Underlying().(*types.Pointer); isPtr {
+					vc.assume(fmt.Sprintf("(not (= %s 0))", nv.T))
+				}
+			}
+			vc.used.Assumes["package-level variables of "+g.Pkg.Pkg.Path()+" (metrics registered at init) are non-nil"] = true
+		}
 		if g, ok := in.X.(*ssa.Global); ok && strings.HasPrefix(g.Name(), "Err") && vc.sortOf(in.Type()) == "Iface" {
 			// error sentinels (package-level variables named Err*) are non-nil
 			vc.assume(fmt.Sprintf("(not (= (i_tag %s) 0))", nv.T))
